@@ -14,7 +14,7 @@ import (
 
 func init() {
 	register(&Prop{ID: "C08", Run: runC08, MinNontrivial: 200,
-		Rule: "cases = conforming IdP responses drawn from PCG(seed,class,index): 1-3 assertions, signature on Response/assertions/both by a store member (RSA/ECDSA), 8 canonicalisations x 4 digests, 4 prefix styles x pretty-printing x quote style x attribute order x XML declaration x comments x CDATA/char-ref/comment text tricks, value strings from 9 classes (markup, whitespace, CR, BMP, astral, look-alikes, empty, long), 0-30 attributes x 0-5 values incl. duplicate names, raw or DEFLATE (6 levels), plain or encrypted; non-trivial = accepted or rejected after signature processing (i.e. got past parsing); distinct by hash of the case description; plus the store-rollover class of C02 for SSO responses",
+		Rule: "cases = conforming IdP responses drawn from PCG(seed,class,index): 1-3 assertions, signature on Response/assertions/both by a store member (RSA/ECDSA), 8 canonicalisations x 4 digests, 4 prefix styles x pretty-printing x quote style x attribute order x XML declaration x comments x CDATA/char-ref/comment text tricks, value strings from 9 classes (markup, whitespace, CR, BMP, astral, look-alikes, empty, long), 0-30 attributes x 0-5 values incl. duplicate names, raw or DEFLATE (6 levels), plain or encrypted; non-trivial = accepted or rejected after signature processing (i.e. got past parsing); distinct by hash of the case description; plus the store-rollover class of C02 for SSO responses; trailing comments tuned to inflated = 8/16/32 x compressed length",
 		Assumptions: []string{"the IdP simulator's canonical bytes come from goxmldsig's Canonicalizer objects (a canonicaliser bug shared by signer and verifier is invisible)",
 			"genuine documents stay under goxmldsig's 1000-element traversal budget", "xsi:type is not compared (never decoded by the library)",
 			"encrypted assertions are signed with exclusive c14n only (an assertion signed standalone and re-attached under a Response that declares further prefixes cannot verify with inclusive c14n)"}})
